@@ -16,7 +16,7 @@ EXTENDS Integers, Sequences, FiniteSets, TLC
 ECANCELED == -125
 ETIME == -62
 EBADF == -9
-FdOps == {"openat", "socket"}          \* results are descriptors: numbers are not comparable
+FdOps == {"openat", "socket", "accept"}          \* results are descriptors: numbers are not comparable
 Norm(op, res) == IF op \in FdOps /\ res >= 0 THEN 0 ELSE res
 HasBit(x, b) == (x \div b) % 2 = 1
 
